@@ -3,8 +3,16 @@ package main
 import (
 	"bytes"
 	"compress/flate"
+	"context"
+	"crypto/ecdsa"
+	"crypto/elliptic"
+	crand "crypto/rand"
+	"crypto/tls"
+	"crypto/x509"
+	"crypto/x509/pkix"
 	"fmt"
 	"io"
+	"math/big"
 	"net"
 	"net/url"
 	"os"
@@ -90,7 +98,7 @@ func session(kind int, id int) (obs []string, late func() []string, err error) {
 	ca, cb := &jitterConn{Conn: a, seed: id}, &jitterConn{Conn: b, seed: id * 7}
 	defer a.Close()
 	defer b.Close()
-	watchdog := time.AfterFunc(30*time.Second, func() { a.Close(); b.Close() })
+	watchdog := time.AfterFunc(10*time.Second, func() { a.Close(); b.Close() })
 	defer watchdog.Stop()
 	compressed := kind%2 == 1
 	tag := fmt.Sprintf("k%d", kind)
@@ -301,15 +309,32 @@ func c19(c *ctx) {
 		close(start)
 		wg.Wait()
 	}
+	var soloFailed []string
 	for k := 0; k < kinds; k++ {
 		o, late, err := session(k, 1000+k)
 		if err != nil {
-			vh.Fatal("solo session %d failed: %v", k, err)
+			// even one connection on its own (its two goroutines share the library's pools and package
+			// state) does not get through: reported as a record, not as a dead driver
+			soloFailed = append(soloFailed, fmt.Sprintf("solo session %d failed: %v", k, err))
+			continue
 		}
 		solo[k] = append(o, late()...)
 	}
-	meta.Samples = append(meta.Samples, solo[3])
 	n := 0
+	if len(soloFailed) > 0 {
+		for i, msg := range soloFailed {
+			out.Emit(map[string]interface{}{"k": "session", "key": fmt.Sprintf("solo/%d", i), "kind": -1, "n": 1, "procs": 16, "completed": false,
+				"obs": []string{msg}, "solo": []string{}, "races": 0}, true)
+			n++
+		}
+		meta.Evaluations = n
+		meta.Distinct = 1
+		out.Close()
+		meta.Files = map[string][]string{"records": out.Files}
+		meta.Write(c.dir)
+		return
+	}
+	meta.Samples = append(meta.Samples, solo[3])
 	for i, r := range cold {
 		key := fmt.Sprintf("cold/%d", i)
 		obs := r.obs
@@ -370,11 +395,92 @@ func c19(c *ctx) {
 		}
 	}
 	runtime.GOMAXPROCS(16)
+	// wss dials with the dialer's default TLS configuration, to different hosts at once: each must
+	// announce its own host name (SNI) and fail the same way (the test certificate is not trusted)
+	cert, cerr := selfSigned()
+	if cerr != nil {
+		vh.Fatal("test certificate: %v", cerr)
+	}
+	soloTLS := map[int][]string{}
+	for i := 0; i < 4; i++ {
+		soloTLS[i] = tlsSession(i, cert)
+	}
+	for round := 0; round < 3; round++ {
+		N := 16
+		res := make([][]string, N)
+		var wg sync.WaitGroup
+		start := make(chan struct{})
+		for i := 0; i < N; i++ {
+			wg.Add(1)
+			go func(i int) {
+				defer wg.Done()
+				<-start
+				res[i] = tlsSession(i%4, cert)
+			}(i)
+		}
+		close(start)
+		wg.Wait()
+		for i := range res {
+			key := fmt.Sprintf("tls/%d/%d", round, i)
+			if !vh.Only(key) {
+				continue
+			}
+			out.Emit(map[string]interface{}{"k": "session", "key": key, "kind": 100 + i%4, "n": N, "procs": 16, "completed": true,
+				"obs": res[i], "solo": soloTLS[i%4], "races": 0}, true)
+			n++
+			shapes.Add("tls/%d", i%4)
+		}
+	}
 	meta.Evaluations = n
 	meta.Distinct = len(shapes)
 	out.Close()
 	meta.Files = map[string][]string{"records": out.Files}
 	meta.Write(c.dir)
+}
+
+// selfSigned makes a certificate for *.tls.test that no client trusts.
+func selfSigned() (tls.Certificate, error) {
+	key, err := ecdsa.GenerateKey(elliptic.P256(), crand.Reader)
+	if err != nil {
+		return tls.Certificate{}, err
+	}
+	tmpl := &x509.Certificate{SerialNumber: big.NewInt(1), Subject: pkix.Name{CommonName: "tls.test"}, DNSNames: []string{"*.tls.test"},
+		NotBefore: time.Now().Add(-time.Hour), NotAfter: time.Now().Add(24 * time.Hour), KeyUsage: x509.KeyUsageDigitalSignature, ExtKeyUsage: []x509.ExtKeyUsage{x509.ExtKeyUsageServerAuth}}
+	der, err := x509.CreateCertificate(crand.Reader, tmpl, tmpl, &key.PublicKey, key)
+	if err != nil {
+		return tls.Certificate{}, err
+	}
+	return tls.Certificate{Certificate: [][]byte{der}, PrivateKey: key}, nil
+}
+
+// tlsSession dials wss://host-<i>.tls.test through the library's default TLS client over an in-memory
+// duplex; a TLS server on the other end records the server name the client announced.
+func tlsSession(i int, cert tls.Certificate) []string {
+	host := fmt.Sprintf("host-%d.tls.test", i)
+	a, b := newBufPipe()
+	defer a.Close()
+	sni := make(chan string, 1)
+	go func() {
+		got := "(no hello)"
+		srv := tls.Server(b, &tls.Config{GetConfigForClient: func(h *tls.ClientHelloInfo) (*tls.Config, error) {
+			got = h.ServerName
+			return &tls.Config{Certificates: []tls.Certificate{cert}}, nil
+		}})
+		srv.Handshake()
+		b.Close()
+		sni <- got
+	}()
+	d := ws.Dialer{Timeout: 10 * time.Second, NetDial: func(ctx context.Context, network, addr string) (net.Conn, error) { return a, nil }}
+	_, _, _, err := d.Dial(context.Background(), "wss://"+host+"/x")
+	a.Close()
+	class := "nil"
+	if err != nil {
+		class = "other"
+		if strings.Contains(err.Error(), "x509") || strings.Contains(err.Error(), "certificate") {
+			class = "untrusted-certificate"
+		}
+	}
+	return []string{"sni:" + <-sni, "err:" + class, "want:" + host}
 }
 
 // ---- a buffered in-memory duplex (net.Pipe is synchronous and would deadlock two writers)
